@@ -19,6 +19,14 @@ AX = {
 }
 
 PROPERTIES = {
+    'C09': {
+        'functions': ['EventBus.dispatch', 'EventBus._start', 'CleanShutdownQueue.put_nowait', 'EventBus.cleanup_event_history', 'EventBus._run_loop',
+                      'EventBus.step', 'EventBus._get_next_event'],
+        'trusted_base': [AX[k] for k in ('A1', 'A2', 'A5', 'A7', 'A10', 'X1', 'X2', 'P5')] + [
+            'P6 distinct live events have distinct event_id (uuid7)', 'each child is listed at most once before the call (established by dispatch itself, the only writer of event_children)'],
+        'not_decided': [],
+        'assumptions': [],
+    },
     'C07': {
         'functions': ['EventBus.dispatch', 'EventBus._would_create_loop', 'EventBus._get_applicable_handlers', 'bubus.get_handler_id',
                       'EventBus._handler_dispatched_ancestor', 'bubus.get_handler_name', 'EventBus._start', 'EventBus.cleanup_event_history',
